@@ -198,6 +198,8 @@ pub fn try_cleanup_stale_authority_files(
 ) -> Result<bool, String> {
     let lock_path = authority_lock_path(&data_dir);
     let meta_path = authority_meta_path(&data_dir);
+    #[cfg(rip_verif)]
+    rip_kernel::verif::point("auth.stale.enter", || serde_json::json!({}));
 
     if !lock_path.exists() {
         return Ok(false);
@@ -237,6 +239,8 @@ pub fn try_cleanup_stale_authority_files(
 
     if let Ok(Some(meta)) = read_authority_meta(&data_dir) {
         if meta.pid == expected_pid {
+            #[cfg(rip_verif)]
+            rip_kernel::verif::point("auth.stale.metaread", || serde_json::json!({}));
             let meta_tombstone = meta_path.with_file_name(format!(
                 "{}.stale-{}-{}-{}",
                 meta_path.file_name().unwrap_or_default().to_string_lossy(),
@@ -258,6 +262,8 @@ pub fn try_cleanup_stale_authority_files(
 
 pub fn try_cleanup_corrupt_lock_file(data_dir: impl AsRef<Path>) -> Result<bool, String> {
     let lock_path = authority_lock_path(&data_dir);
+    #[cfg(rip_verif)]
+    rip_kernel::verif::point("auth.corrupt.enter", || serde_json::json!({}));
     if !lock_path.exists() {
         return Ok(false);
     }
